@@ -33,7 +33,12 @@ WITNESSES = [
      "xy 4 0000000000000000 0000000000000000 3fe0000000000000 0000000000000000 0000000000000000 3fe0000000000000 0000000000000000 0000000000000000",
      "tree-differs"),
     ("rewrite_fixpoint_needs_hyp", "4 le ext 0 0 P xyz 1 7ff8000000000000 7ff8000000000000 4014000000000000", "rewrite-differs"),
-    ("compound_empty_section_unreadable", "4 le ext 0 0 K 1 L xy 0", "read-err"),
+]
+# positive theorems with a concrete instance, replayed as well: (theorem, stream, case) must agree with the model
+POSITIVE = [
+    ("compound_empty_section_roundtrip", "wkb-roundtrip", "4 le ext 0 0 K 1 L xy 0"),
+    ("C11.empty_section_rejected", "wkb-read",
+     "B 010900000002000000010200000000000000010200000002000000" + "00" * 32),
 ]
 
 
@@ -127,6 +132,8 @@ def driver_eval(stream, cases):
 
 
 def effect_of(impl, spec):
+    if impl.startswith("crash"):
+        return "crash"
     if impl == "err" or impl.startswith("err"):
         return "read-err"
     tree = impl
@@ -235,8 +242,7 @@ def run(ctx):
         "Orientation::index, Quadrant::quadrant) throws for some coordinate values; the model takes this as an oracle over the X/Y bit "
         "patterns (theorems hold for every oracle); the driver's oracle is a Lean Float transcription of the C++ (assumes IEEE binary64 "
         "without FMA contraction), compared on targeted mutations of arc coordinates in wkb-read",
-        "where CompoundCurve::validateConstruction has undefined behaviour (empty section among >= 2 sections) the harness maps the "
-        "caught SIGSEGV to 'err' and the model answers 'err' (counted as ub_crash_caught; a C11 matter)",
+        "a SIGSEGV/SIGBUS inside the library is caught by the harness and reported as result 'crash', which the model never predicts",
     ])
     proved = ctx.prove(PROPS, extra_targets=(DRV,))
     ok, out = verif.build_geos("rel")
@@ -295,6 +301,14 @@ def run(ctx):
         elif i != m:
             broken.append(("witness " + thm, [(0, case, i, m)]))
     ctx.cov["negative_theorem_witnesses"] = wit
+    pos = []
+    for thm, st, case in POSITIVE:
+        i = (harness_eval(exe, st, [case]) or ["?"])[0]
+        m = (driver_eval("wkb-roundtrip-model" if st == "wkb-roundtrip" else st, [case]) or ["?"])[0]
+        pos.append({"theorem": thm, "case": case, "impl": i, "model": m, "agree": i == m})
+        if i != m:
+            broken.append(("instance of " + thm + " (" + st + ")", [(0, case, i, m)]))
+    ctx.cov["positive_theorem_instances"] = pos
 
     # a correspondence stream disagrees: model and code differ somewhere.  The oracle streams above already searched for an
     # input on which the *property* fails; try the disagreeing inputs themselves, then report the broken tie.
@@ -315,6 +329,14 @@ def run(ctx):
                 if d:
                     extra += report_oracle(ctx, exe, name, [(rt, i, s)], seen)
         found_input += extra
+        crashes = [d for d in ds if d[2].startswith("crash")]
+        for idx, case, exp, got in crashes[:1]:
+            sig = {"stream": name.split(">")[0], "effect": "crash"}
+            if ctx.violation("the library crashes (SIGSEGV) on this input (%s)" % name,
+                             {"kind": "failing-input", "stream": name, "case": case, "impl": exp, "model": got, "signature": sig},
+                             signature=sig):
+                extra += 1
+                found_input += 1
         idx, case, exp, got = ds[0]
         ctx.violation("correspondence stream %s: implementation and model disagree (%d shown); first: impl=%s model=%s" %
                       (name, len(ds), exp[:120], got[:120]),
@@ -341,7 +363,8 @@ def replay(ctx, path):
         print("replay file has no case (kind=%s): %s" % (r.get("kind"), r.get("what")))
         return 1
     stream = (r.get("correspondence") or r.get("stream") or "wkb-roundtrip").split(">")[0]
-    if r.get("kind") == "failing-input" or stream.startswith("witness"):
+    is_crash = (r.get("signature") or {}).get("effect") == "crash" and not stream.startswith("wkb-roundtrip")
+    if (r.get("kind") == "failing-input" and not is_crash) or stream.startswith("witness"):
         d, impl, spec = oracle_disagrees(exe, case)
         print("case     :", case)
         print("impl     :", impl)
@@ -350,6 +373,9 @@ def replay(ctx, path):
             print("VIOLATION property=C09 replay=%s" % path)
             return 1
         return 0
+    for pre in ("instance of", "witness"):
+        if stream.startswith(pre):
+            stream = "wkb-read" if "(wkb-read)" in stream else "wkb-roundtrip"
     dstream = {"wkb-write": "wkb-write", "wkb-read": "wkb-read"}.get(stream, "wkb-roundtrip-model")
     hstream = stream if stream in ("wkb-write", "wkb-read") else "wkb-roundtrip"
     i = harness_eval(exe, hstream, [case])
